@@ -109,3 +109,14 @@ Theorem C04_continued_statement_with_comments_between_its_lines_partial :
 Proof. exact gsi_contc. Qed.
 Goal True. idtac "ASSUMPTIONS-OF C04_continued_statement_with_comments_between_its_lines_partial". Abort.
 Print Assumptions C04_continued_statement_with_comments_between_its_lines_partial.
+
+(* ';' JOINS.  A statement text without character context and without brackets is cut at EVERY ';'
+   and nowhere else: the parts are exactly the pieces between the semicolons (any number of them);
+   C12's whole-file theorem then delivers each part as its own item with the line's number. *)
+From FV Require Import SemiLaws.
+Theorem C04_semicolon_line_is_cut_at_every_semicolon_partial :
+  forall ps : list text, ps <> [] -> Forall (fun p => mem_char ";"%char p = false) ps ->
+    simple (join_semi ps) -> semi_split (join_semi ps) = ps.
+Proof. exact semi_split_join. Qed.
+Goal True. idtac "ASSUMPTIONS-OF C04_semicolon_line_is_cut_at_every_semicolon_partial". Abort.
+Print Assumptions C04_semicolon_line_is_cut_at_every_semicolon_partial.
